@@ -631,3 +631,51 @@ def restore_batch(I, prop, policy, max_paths):
         if v.role in seen:
             v.confirmed, v.replay = seen[v.role]
     return res
+
+
+# --------------------------------------------------------------------------------------------------- C13: a timer tick with several processes in the cache
+def tick_beside_path(I, res, prop, policy):
+    """A process waiting on a timeout rule gets its tick whatever else sits in the cache (a finished process that is kept, a running one), in
+    either insertion order: its summary after 'clock past the limit, tick, answer everything' equals the one of the process running alone."""
+    d = Driver(I, res, prop, "tick-beside:" + policy)
+
+    def run_timed(W, p):
+        W.clock += 10 * 24 * 3600 * 1000
+        W.tick()
+        W.drain()
+        n = 0
+        while n < 8:
+            p.live()
+            irqs = d.open_irqs(p) if not p.done() else []
+            if not irqs:
+                break
+            n += 1
+            d.answer(W, p, irqs[0])
+
+    W0 = d.world()
+    p0 = d.start(W0, "tmo_act", "T")
+    W0.drain()
+    run_timed(W0, p0)
+    ref = summary(W0, p0)
+    d.phase = "together"
+    other = ["auto", "one_irq"][I.path.choose(2, "other-process")]
+    first = I.path.choose(2, "timed-process-first") == 1
+    W = d.world(policy=policy)
+    if first:
+        pt = d.start(W, "tmo_act", "T", pid="pT")
+        po = d.start(W, other, "O", pid="pO")
+    else:
+        po = d.start(W, other, "O", pid="pO")
+        W.drain()
+        pt = d.start(W, "tmo_act", "T", pid="pT")
+    W.drain()
+    d.log.append(("setup", other, first, None, d.phase))
+    res.witnesses += 1
+    run_timed(W, pt)
+    d.compare(ref, summary(W, pt), "tick-beside", "%s-%s" % (other, "after" if first else "before"))
+    if len(res.samples) < 2:
+        res.samples.append(dict(check="tick-beside", other=other, timed_first=first))
+
+
+def tick_beside(I, prop, policy, max_paths):
+    return explore(I, "tick-beside:" + policy, lambda I, res: tick_beside_path(I, res, prop, policy), max_paths=max_paths)
